@@ -136,6 +136,41 @@ def wideN (d : Nat) : Nat :=
 /-- C03: comparisons agree with the order of the denoted values -/
 def checkC03 (toks : List String) (res : String) : Option Verdict :=
   match toks with
+  | ["icmp", side, ops, rx, lt, el, bt, a, b] => do
+    -- scaled_integer versus a built-in integer (exponent 0), the integer on the right ("r") or left ("l")
+    let op ← parseCmpOp ops; let rx ← rx.toNat?; let L ← parseIntTy lt; let el ← el.toInt?; let B ← parseIntTy bt
+    let a ← a.toInt?; let b ← b.toInt?
+    let x : Num := (.sc (.int L) el rx, a); let y : Num := (.int B, b)
+    let m := if side == "r" then Layered.cmp op x y else Layered.cmp op y x
+    -- same answer as comparing with that integer wrapped in the same CNL type (exponent 0)
+    let y' : Num := (.sc (.int B) 0 rx, b)
+    let m' := if side == "r" then Layered.cmp op x y' else Layered.cmp op y' x
+    let c := min el 0
+    let al := scalePow rx (el - c) a; let ar := scalePow rx (0 - c) b
+    let fits := (promote L).inRange al && (promote B).inRange ar
+    let byValue := L.signed == B.signed || (a ≥ 0 && b ≥ 0)
+    let cmpI (p q : Int) : Bool := match op with
+      | .lt => decide (p < q) | .le => decide (p ≤ q) | .gt => decide (p > q) | .ge => decide (p ≥ q)
+      | .eq => decide (p = q) | .ne => decide (p ≠ q)
+    let want := if side == "r" then cmpI al ar else cmpI ar al
+    let spec : Option Bool :=
+      if !fits then none
+      else if byValue then some (res == showBool want)
+      else some (res == showRes showBool m')
+    some { model := showRes showBool m, spec := spec, branch := "icmp/" ++ side ++ "/" ++ ops, nontrivial := fits }
+  | ["eicmp", side, ops, dl, nl, bt, l, b] => do
+    -- elastic_integer versus a built-in integer: by value whatever the signedness
+    let op ← parseCmpOp ops; let dl ← dl.toNat?; let nl ← parseIntTy nl; let B ← parseIntTy bt; let l ← l.toInt?; let b ← b.toInt?
+    let x : Elastic.ENum := ⟨dl, nl, l⟩
+    let y : Elastic.ENum := ⟨B.digits, ⟨nl.bits, B.signed⟩, b⟩     -- from_value<elastic_integer<D,N>, B>
+    let m := if side == "r" then Elastic.cmp op x y else Elastic.cmp op y x
+    let cmpI (p q : Int) : Bool := match op with
+      | .lt => decide (p < q) | .le => decide (p ≤ q) | .gt => decide (p > q) | .ge => decide (p ≥ q)
+      | .eq => decide (p = q) | .ne => decide (p ≠ q)
+    let want := if side == "r" then cmpI l b else cmpI b l
+    let guard := decide x.InRange
+    some { model := showRes showBool m, spec := if guard then some (res == showBool want) else none,
+           branch := "eicmp/" ++ side ++ "/" ++ ops, nontrivial := guard }
   | ["wcmp", ops, dl, dr, l, r] => do
     -- wide_integer<DL,int> OP wide_integer<DR,int>: the right operand is converted to the left
     -- operand's type before the representations are compared
